@@ -106,7 +106,7 @@ static int step(int e)
     case E_NODE_START: if (M.mode != M_INIT) return MC_SKIP; M.mode = M_PREOP; CONodeStart(&Node); break;
     default: break;
     }
-    (void)CONodeGetErr(&Node);
+    nc_poll();                   
     (void)CONmtGetHbEvents(&Node.Nmt, 9);
     {   /* heartbeat frames of this step (boot-up frames of a reset are not heartbeats) */
         int n = 0;
